@@ -1,5 +1,6 @@
 //! l1conn: runtime monitors; usage: l1conn <property> --seed S --tier quick|thorough --shard i --shards n [--budget N] --out frag.json [--replay file]
 mod c06;
+mod c07;
 mod c14;
 mod c16;
 
@@ -12,6 +13,7 @@ fn main() {
     let mut rep = Report::new(&prop.to_uppercase(), args.seed());
     match prop.as_str() {
         "c06" => c06::run(&args, &mut rep),
+        "c07" => c07::run(&args, &mut rep),
         "c14" => c14::run(&args, &mut rep),
         "c16" => c16::run(&args, &mut rep),
         other => {
